@@ -416,6 +416,13 @@ def check(F, run, tier):
             run.add(o)
         nn += 1
     run.floor("R-NARROW(functions)", nn, 20)
+    # the slice reader also with implicit and same-width sign conversions: its clamps and bounds tests compare unsigned 64-bit
+    # quantities, and a detour through a signed type (std::min<std::streamoff>(size, left)) turns a huge request into a
+    # negative one that wins the minimum. None on the reviewed tree; the sweep is what keeps it so.
+    for fn in [f for f in sweep if f.cls == SR]:
+        obs, _ = r_narrow(F, S, fn, entry=frozenset(inv_slice), explicit_only=False, sign_conversions=True)
+        have = {x.key() for x in run.obligations}
+        run.add([o for o in obs if "accumulation in" not in o.required and o.key() not in have and not o.instance.endswith("file.gcount()")])
     fx = [f for f in F.fixture_functions.values() if f.qn == "fixture::Cursor::Back"]
     hit = False
     if fx:
